@@ -13,7 +13,7 @@ DEFAULT = dict(
     nb=(1, 3), p_parallel=0.2, maxh=[50, 50, 50, None, 2, 3, 4], p_timeout=0.0, p_forward=0.12, p_sync=0.2,
     nh=(1, 6), proglen=(0, 5), ntasks=(1, 2), tasklen=(1, 6), p_wild=0.15, p_raise=0.05, p_readbus=0.04,
     p_redispatch=0.03, p_multikey=0.05, wild_dispatch=False, p_waitidle=0.1, p_parent=0.03, p_wal=0.0,
-    p_stop=0.0, p_expect=0.0, p_cancelrl=0.0, p_notimeout=0.1, p_walfault=0.0, p_payload=0.0,
+    p_stop=0.0, p_expect=0.0, p_cancelrl=0.0, p_notimeout=0.1, p_walfault=0.0, p_payload=0.0, p_cleanup=0.15,
 )
 
 PAYLOADS = [
@@ -118,6 +118,8 @@ def gen_core(rng, **over):
             continue
         kind = 'sync' if r < o['p_forward'] + o['p_sync'] else 'async'
         h = {'bus': rng.randrange(nb), 'key': key, 'kind': kind, 'prog': gen_prog(rng, o, key, nb, kind)}
+        if kind == 'async' and o['p_timeout'] > 0 and rng.random() < o['p_cleanup']:
+            h['cleanup'] = rng.choice([1 / 64, 9 / 64, 17 / 64])    # time spent in its own cleanup when cancelled
         if rng.random() < o['p_multikey'] and key != '*':
             h['keys'] = [key, '*']
             h['prog'] = gen_prog(rng, o, '*', nb, kind)
@@ -160,6 +162,8 @@ def gen_chain(rng, p_timeout=0.5, p_await=0.8, p_parallel=0.0, nb=(1, 2), maxh=(
         if rng.random() < p_raise:
             prog.append(['raise'])
         sc['handlers'].append({'bus': home[t], 'key': t, 'kind': 'async', 'prog': prog})
+        if with_to and rng.random() < 0.15:
+            sc['handlers'][-1]['cleanup'] = rng.choice([1 / 64, 9 / 64, 17 / 64])
         for _ in range(rng.choice([0, 0, 1, 1, 2])):
             kind = rng.choice(['async', 'async', 'sync'])
             p2 = [] if kind == 'sync' else [['sleep', rng.choice(SLEEPS)]]
@@ -230,6 +234,8 @@ def gen_stop(rng, p_cancel=0.3, **_):
         if kind == 'sync':
             prog = [p for p in prog if p[0] != 'sleep']
         sc['handlers'].append({'bus': 0, 'key': rng.choice([ty, ty, '*']), 'kind': kind, 'prog': prog})
+        if kind == 'async' and rng.random() < 0.15:
+            sc['handlers'][-1]['cleanup'] = rng.choice([1 / 64, 9 / 64, 17 / 64])
     for b in others:
         for _ in range(rng.randint(0, 2)):
             if rng.random() < 0.6:
